@@ -5,7 +5,7 @@ from __future__ import annotations
 from pbt import strategies as S
 from pbt.common import Stats, Sub, Violation
 from pbt.model import Model
-from pbt.sut import history_variants, mk_incremental_queried, mk_split_merge, query_everything, mk_converter
+from pbt.sut import Converter, mk_records, history_variants, mk_incremental_queried, mk_split_merge, query_everything, mk_converter
 
 PROPERTY_ID = "C03"
 RULE = (
@@ -107,6 +107,44 @@ def check(case, stats: Stats) -> None:
         except Violation as v:
             v.message = f"[converter {how}] " + v.message
             raise
+
+
+def _wrongly_accepted(spec):
+    """Collections that a strict constructor MUST refuse (one CURIE name claimed by two records that are not neighbours in any
+    sort order of the names). On a correct tree every attempt raises and nothing is checked; a converter that comes into being
+    nevertheless is a strict converter, and the laws of this property are checked on it as on any other."""
+    recs = spec["records"]
+    d = spec.get("delimiter", ":")
+    out = []
+    if len(recs) >= 3:
+        for i, j in ((0, len(recs) - 1), (len(recs) - 1, 0), (0, len(recs) // 2)):
+            if i == j:
+                continue
+            clash = [dict(r, prefix_synonyms=list(r["prefix_synonyms"]), uri_prefix_synonyms=list(r["uri_prefix_synonyms"])) for r in recs]
+            name = recs[j]["prefix"]
+            if name in [clash[i]["prefix"], *clash[i]["prefix_synonyms"]]:
+                continue
+            clash[i]["prefix_synonyms"].append(name)
+            try:
+                out.append((f"strict converter wrongly constructed although {name!r} is claimed by records {i} and {j}", Converter(mk_records(clash), delimiter=d)))
+            except ValueError:
+                pass
+    return out
+
+
+_plain_check = check
+
+
+def check(case, stats: Stats) -> None:  # noqa: F811
+    _plain_check(case, stats)
+    for how, conv in _wrongly_accepted(case["spec"]):
+        try:
+            # only the URIs: every registered URI prefix still has one owner, so the round-trip laws are well defined
+            _check_on(conv, dict(case, curies=[]), Stats())
+        except Violation as v:
+            v.message = f"[{how}] " + v.message
+            raise
+        stats.cls("wrongly-accepted-collection-survived-the-laws")
 
 
 SUBS = [
